@@ -2,6 +2,8 @@
 import ast
 import z3
 
+from .core import spec as _spec
+
 from .core import (Sym, Arr, Arr2, LArr, SList, PyList, ObjRec, Ref, ClassVal,
                    Opaque, OutsideSubset, Raised, State, fresh, uid, I, B)
 from .symexec import Lib, View, BoundMethod
@@ -224,7 +226,7 @@ class Registry:
         st.env = env
         try:
             name = c.qualname.split('.', 2)[-1]
-            for (nm, f) in c.pre(View(ex, st)):
+            for (nm, f) in _spec(c.pre, View(ex, st)):
                 ex.cx.oblige(st, 'call_pre/{}/{}@L{}'.format(
                     name, nm, getattr(node, 'lineno', 0)), f, kind='call_pre')
             old = st.copy()
@@ -233,8 +235,8 @@ class Registry:
             fields = set(('self', f) for f in c.mod_fields)
             ex.havoc(st, set(c.mod_args), fields, set(c.mod_ghost),
                      set(c.mod_args))
-            res = c.result(ex, st, View(ex, st))
-            for (nm, f) in c.post(View(ex, old), View(ex, st), res):
+            res = _spec(c.result, ex, st, View(ex, st))
+            for (nm, f) in _spec(c.post, View(ex, old), View(ex, st), res):
                 st.assume(f)
         finally:
             st.env = saved
